@@ -130,14 +130,18 @@ var c14Kind = registerKind("c14", func(in c14In) string {
 })
 
 func TestC14_All(t *testing.T) {
-	st := NewStats("C14", "TestC14_All", "all 65536 lifecycle values, exhaustively, against a table oracle: LifeCycleToState, state name, IsValid, ValidateSecurityLifeCycle, both profiles' setter+getter, struct-literal getter+Validate, CBOR decode-and-validate of a token carrying the value (thorough: also the JSON route). Non-trivial = a value other than the 18 the repository's table test pins; distinct = value")
+	st := NewStats("C14", "TestC14_All", "all 65536 lifecycle values, exhaustively, against a table oracle: LifeCycleToState, state name, IsValid, ValidateSecurityLifeCycle, both profiles' setter+getter (on a fresh claims-set and on ones already holding the same / a valid / an invalid value), struct-literal getter+Validate, CBOR decode-and-validate of a token carrying the value (thorough: also the JSON route). Non-trivial = a value other than the 18 the repository's table test pins; distinct = value")
 	st.Exhaustive = true
 	defer st.Flush(t)
 	pinned := map[int]bool{}
 	for _, v := range []int{0x0000, 0x00a7, 0x00ff, 0x1010, 0x2001, 0x20ff, 0x3000, 0x3090, 0x30ff, 0x4020, 0x5000, 0x50af, 0x6001, 0x60ff, 0xffff, 0x0100, 0x3100, 0x7000} {
 		pinned[v] = true
 	}
+	shard, shards := shardInfo()
 	for v := 0; v <= 0xffff; v++ {
+		if v%shards != shard {
+			continue
+		}
 		in := c14In{V: v, JSON: thorough()}
 		msg := c14Kind(in)
 		key := ""
